@@ -382,14 +382,14 @@ def run(tier: str, replay: str | None = None):
         cases = [json.loads(Path(replay).read_text())["input"]]
     else:
         cases = list(load_corpus())
-        n = 1200 if tier == "quick" else 12000
+        n = 24000 if tier == "quick" else 90000
         for _ in range(n):
-            t = gen_type(rng, 3)
+            t = gen_type(rng, 4 if rng.random() < 0.3 else 3)
             try:
                 T = eval(t, ns)
             except Exception:
                 continue
-            cases.append({"type": t, "obj": G.fix_labels(gen_obj_for(rng, T))})
+            cases.append({"type": t, "obj": G.fix_labels(gen_obj_for(rng, T, 3 if rng.random() < 0.4 else 2))})
 
     rows, oof = [], 0
     hist = {"impl_true": 0, "impl_false": 0, "type_heads": {}, "obj_kinds": {}}
@@ -417,7 +417,7 @@ def run(tier: str, replay: str | None = None):
         src = literal_source(r["case"]["obj"])
         if src is not None and "*tuple" not in r["case"]["type"]:
             progs.append((i, r["case"]["type"], src))
-    limit = 250 if tier == "quick" else 2500
+    limit = 3500 if tier == "quick" else 12000
     if not replay:
         progs = progs[:limit]
     e2e_other = []
@@ -436,14 +436,17 @@ def run(tier: str, replay: str | None = None):
     model_ok = proof is not None and not any("build failed" in b or "forbidden" in b for b in proof.broken)
     if model_ok:
         try:
-            results = lib.coq_eval(HEADER, [r["term"] for r in rows], name="c03", shard=150 if tier == "quick" else 400, jobs=6)
+            results = lib.coq_eval(HEADER, [r["term"] for r in rows], name="c03", shard=400, jobs=6)
             for r, res in zip(rows, results):
-                ca, mem, (variadic, dedup, _fro, nonstr, strb) = res[0], res[1], res[2]
+                ca, mem, (variadic, dedup, _fro, nonstr, strb, okb) = res[0], res[1], res[2]
                 r["model"], r["spec"] = ca, mem
                 # type_from_runtime drops the unpacking of `*tuple[X, ...]` (the term has no flag), so this clause is read off the input
                 variadic = variadic or "*tuple[" in r["case"]["type"]
                 r["clauses"] = {"variadic_member": variadic, "literal_dedup": dedup, "typeddict_nonstr_key": nonstr,
                                 "str_bytes_by_type": strb}
+                # the decidable guard of C03_known_assign_iff_member_decidable; void when the term is not the type
+                # (type_from_runtime dropped an unpacked member)
+                r["okb"] = okb and "*tuple[" not in r["case"]["type"]
         except (RuntimeError, ValueError) as ex:
             rep.violation({"kind": "broken-correspondence", "correspondence": "Core.CanAssignK/Core.Member evaluation", "detail": str(ex)[-1500:]},
                           no_failing_input=True)
@@ -463,7 +466,8 @@ def run(tier: str, replay: str | None = None):
             distinct.add(json.dumps(r["case"], sort_keys=True))
         if bad_rt or bad_e2e:
             attributed = False
-            if "model" in r and r["model"] == r["impl"] and (not bad_e2e or r["e2e"] == (not r["impl"])):
+            # inside the theorem's guard nothing is attributable: model = spec there
+            if "model" in r and not r["okb"] and r["model"] == r["impl"] and (not bad_e2e or r["e2e"] == (not r["impl"])):
                 for clause in ("variadic_member", "literal_dedup", "typeddict_nonstr_key", "str_bytes_by_type"):
                     fid = f"C03-{clause.replace('_', '-')}"
                     if r["clauses"][clause] and fid in findings:
@@ -492,16 +496,20 @@ def run(tier: str, replay: str | None = None):
         rep.violation({"kind": "broken-obligation", "theorem": "; ".join(proof.broken), "log": proof.log[-1500:]}, no_failing_input=True)
 
     n_e2e = sum(1 for r in rows if "e2e" in r)
+    n_okb = sum(1 for r in rows if r.get("okb"))
+    okb_model_ne_spec = [r for r in rows if r.get("okb") and r["model"] != r["spec"]]
+    if okb_model_ne_spec:  # would contradict the theorem: the evaluation itself is broken
+        rep.harness_error(f"okb holds but model != spec on {json.dumps(okb_model_ne_spec[0]['case'])}")
     rep.coverage.update(
         evaluations=len(rows) + n_e2e,
         distinct_nontrivial=len(distinct),
-        rule="a case = (static type expression up to depth 3, object of the universe up to depth 2, biased towards members and near misses); "
+        rule="a case = (static type expression up to depth 3-4, object of the universe up to depth 2-3, biased towards members and near misses); "
         "compared: is_assignable vs model ca, Coq spec member vs CPython oracle, is_assignable vs oracle, and for objects with a literal display "
         "the checker's incompatible_assignment verdict on `x: T = <literal>` vs oracle; every case with a container or non-class type is non-trivial",
         samples=[r["case"] for r in rows[:4]],
         traces_validated_against_impl=validated,
         input_distribution={**hist, "oracle_true": sum(r["oracle"] for r in rows), "oracle_false": sum(not r["oracle"] for r in rows),
-                            "end_to_end_programs": n_e2e, "end_to_end_other_diagnostics": len(e2e_other), "out_of_fragment": oof, "cases": len(cases)},
+                            "end_to_end_programs": n_e2e, "cases_inside_theorem_guard_okb": n_okb, "end_to_end_other_diagnostics": len(e2e_other), "out_of_fragment": oof, "cases": len(cases)},
         correspondence_mismatches=len(corr),
         spec_vs_cpython_mismatches=len(spec_bad),
         oracle_failures_unattributed=len(failing),
